@@ -1431,6 +1431,13 @@ def run_impl(case):
                             if gn not in dirty_before["glyphs"].get(ln, set()) and b1 != files_before[d0 + "/" + c0[gn]][0]:
                                 oracle.add("usable", "save/changed-clean-glyph-file", i, op, layer=ln, glyph=gn)
                                 break
+                if k == "save" and st == "ok":
+                    # ... and every image / data file the font lists
+                    for key, prefix, _, _ in SETS:
+                        for n in sorted(before[key + "_names"]):
+                            if prefix + n in files_before and prefix + n not in impl.files:
+                                oracle.add("usable", "save/lost-%s-file" % ("image" if key == "img" else "data"), i, op, name=n)
+                                break
                 if k in ("test", "reloadpart", "acceptdel") and st != "ok":
                     oracle.add("usable", "%s/%s" % (k, st[4:]), i, op, error=result)
                 if k == "reload" and st == "err:KeyError" and xc.default_layer(impl.files) in oracle.mem_deleted_layers:
